@@ -3,4 +3,5 @@ CONSTANTS
   Big = FALSE
 SPECIFICATION Spec
 INVARIANT PairLaws
+INVARIANT Emit
 CHECK_DEADLOCK FALSE
